@@ -28,6 +28,10 @@ def gen_cnr(tape, tier, max_chroms=6, size_classes=None, label="cnr", force_mirr
     with_y = tape.chance(1, 4, label + ".Y")
     n_auto = max(0 if (with_x or with_y) else 1, n_chrom - int(with_x) - int(with_y))
     names = chrom_names(tape, n_auto, with_x, with_y, style)
+    # an in-memory table need not list its chromosomes in "natural" order (a GATK-style header
+    # puts chrM first; a concatenation of per-chromosome tables may come in any order)
+    if len(names) > 1 and tape.chance(1, 4, label + ".chrom_order"):
+        names = [names[i] for i in tape.shuffle(range(len(names)), label + ".chrom_perm")]
     rng = np.random.default_rng(tape.subseed(label + ".bulk"))
     has_depth = not tape.chance(1, 8, label + ".nodepth")
     edge_nulls = tape.chance(1, 2, label + ".edge_nulls")
